@@ -12,6 +12,8 @@ pub struct Parsed {
     pub rec_high: usize,
     pub tok_high: usize,
     pub boundaries_ok: bool,
+    pub msgs: Vec<(usize, String)>,
+    pub depth: usize,
 }
 
 fn show(node: &SyntaxNode, src: &str, out: &mut String, bad: &mut bool) {
@@ -34,6 +36,26 @@ fn show(node: &SyntaxNode, src: &str, out: &mut String, bad: &mut bool) {
     out.push(')');
 }
 
+/// nesting depth counted from the tree alone: selection sets, list element values, object field
+/// values and list item types each add one level
+pub fn nesting_depth(node: &SyntaxNode) -> usize {
+    use apollo_parser::SyntaxKind as K;
+    fn go(node: &SyntaxNode) -> usize {
+        let own = match node.kind() {
+            K::SELECTION_SET => 1,
+            // the counter is bumped right after `[`, before the item type is looked at
+            K::LIST_TYPE => 1,
+            // one level per attempted element value (anything but the brackets and ignored tokens)
+            K::LIST_VALUE => if node.children_with_tokens().any(|c| !matches!(c.kind(), K::L_BRACK | K::R_BRACK | K::WHITESPACE | K::COMMENT | K::COMMA)) { 1 } else { 0 },
+            // the value after `name:`
+            K::OBJECT_FIELD => if node.children_with_tokens().any(|c| c.kind() == K::COLON) { 1 } else { 0 },
+            _ => 0,
+        };
+        own + node.children().map(|c| go(&c)).max().unwrap_or(0)
+    }
+    go(node)
+}
+
 pub fn run_parser(entry: &str, tl: Option<usize>, rl: usize, src: &str) -> Result<Parsed, String> {
     catch(|| {
         let mut p = Parser::new(src).recursion_limit(rl);
@@ -47,7 +69,8 @@ pub fn run_parser(entry: &str, tl: Option<usize>, rl: usize, src: &str) -> Resul
         let mut bad = false;
         show(&node, src, &mut sexpr, &mut bad);
         let errors = errs.iter().map(|e| if e.is_limit() { ('L', e.index(), 0) } else if e.is_eof() { ('F', e.index(), 0) } else { ('E', e.index(), e.data().len()) }).collect();
-        Parsed { sexpr, text: node.text().to_string(), root_kind: format!("{:?}", node.kind()), errors, rec_high: rh, tok_high: th, boundaries_ok: !bad }
+        let msgs = errs.iter().map(|e| (e.index(), e.message().to_string())).collect();
+        Parsed { sexpr, text: node.text().to_string(), root_kind: format!("{:?}", node.kind()), errors, rec_high: rh, tok_high: th, boundaries_ok: !bad, msgs, depth: nesting_depth(&node) }
     })
 }
 
